@@ -735,27 +735,50 @@ theorem sim {g : Grammar} {x : Sem.Env} (h : Hyp g x) (c : Sem.Ctx) (hc : c.eol 
             exact ⟨a1, a2, a3, a4⟩
           | plus =>
             have hf : falsy nf ff y = false := by rcases hd.1 with h' | h'; exact absurd h' (by decide); exact h'
-            have hrep := rep_sim ihn y kid hry hd.2 hf n s [] [] m true false true true s.pos hi (by simp)
-              (by simp [leavesList]) (Nat.le_refl _) (by simp) (by simp)
             simp only [repKind] at hk
             simp only [parse, nodeParse, hnd, hk, h.memo, wrap_post, bodyNode, hkids, hsep,
               withEol_false _ _ _ heol, Sem.pExpr, Expr.sup, falsy, Bool.false_or, hf, Bool.not_false,
               Bool.false_eq_true, ↓reduceIte]
-            rcases hl : repLoop (parse g n) kid none n s [] true false with ⟨r, s2⟩
-            rw [hl] at hrep
-            unfold RelRep at hrep
-            generalize hps : Sem.pRep x none m c y none s.pos [] true = sr at hrep ⊢
-            cases sr <;> cases r <;> simp at hrep <;> simp [Sim.post, Rel]
-            · rename_i p1 its v
-              obtain ⟨a1, a2, a3, a4, a5, a6, a7⟩ := hrep
-              rw [finish_plain id nd v hs hroot a5]
-              have hne : p1 ≠ s.pos := by omega
-              simp [hne]
-              exact ⟨a1, a2, a3, a4, a6, a7⟩
-            · rename_i p1 its
-              obtain ⟨a1, a2, a3⟩ := hrep
-              simp [a1, a2]
-              exact a3.pos _
+            -- first iteration of the loop = the mandatory first element
+            cases n with
+            | zero => simp [repLoop, Sim.post, Rel]
+            | succ k =>
+              have h1 := ihn y kid s m hry hd.2 hi
+              simp only [repLoop]
+              unfold Rel at h1
+              rcases hp1 : parse g (k+1) kid s with ⟨r1, s1⟩
+              rw [hp1] at h1
+              cases r1 with
+              | fuel => simp [Sim.post, Rel]
+              | bad => cases hs1 : Sem.pExpr x none m c y s.pos <;> simp [hs1] at h1 <;> simp [Sim.post, Rel]
+              | «nomatch» =>
+                cases hs1 : Sem.pExpr x none m c y s.pos <;> simp [hs1] at h1 <;> simp [Sim.post, Rel]
+                exact h1.pos _
+              | ok v =>
+                cases hs1 : Sem.pExpr x none m c y s.pos with
+                | fuel => exact Rel.fuel_right _ _ _ _ _
+                | skip w => simp [hs1] at h1
+                | fail => simp [hs1] at h1
+                | ok p1 its =>
+                  rw [hs1] at h1
+                  simp only at h1
+                  obtain ⟨e1, i1, l1, le1, pr1⟩ := h1
+                  obtain ⟨t1, t2⟩ := pr1 (by simp [hf])
+                  have hne : p1 ≠ s.pos := by omega
+                  have hrep := rep_sim ihn y kid hry hd.2 hf k s1 [v] its m false true false true s.pos i1
+                    (by intro u hu; simp at hu; subst hu; exact t1)
+                    (by simp [leavesList, l1]) (by omega) (by simp) (by intro _; exact Or.inr ⟨by simp, by omega⟩)
+                  rw [e1] at hrep
+                  simp only [t1, hne, ↓reduceIte]
+                  rcases hl : repLoop (parse g (k+1)) kid none k s1 [v] false true with ⟨r, s2⟩
+                  rw [hl] at hrep
+                  unfold RelRep at hrep
+                  generalize hps : Sem.pRep x none m c y none p1 its false = sr at hrep ⊢
+                  cases sr <;> cases r <;> simp at hrep <;> simp [Sim.post, Rel]
+                  rename_i p2 its2 v2
+                  obtain ⟨a1, a2, a3, a4, a5, a6, a7⟩ := hrep
+                  rw [finish_plain id nd v2 hs hroot a5]
+                  exact ⟨a1, a2, a3, a4, a6, a7⟩
       | _ => simp [Repr] at hr
 
 end Tx.Sim
